@@ -35,5 +35,6 @@ pub fn cat(parts: &[&[u8]]) -> Msg {
     m
 }
 
+pub mod v2;
 pub mod v4;
 pub mod v3;
